@@ -77,7 +77,9 @@ fn tcp_only(endpoint: &str) -> bool {
 fn gen_doc(seed: u64, variant: u64) -> String {
     let mut r = Rng::new(seed ^ variant.wrapping_mul(0x9E37));
     let mut s = String::from("Region!STRING:0|BuildConfig!HEX:16|BuildId!DEC:4|VersionsName!STRING:0\n");
-    let rows = r.range(1, 5);
+    // header-only documents (zero data rows) are ordinary successful answers (bgdl of most products,
+    // versions of unpublished ones) and must be cached like any other
+    let rows = if r.chance(1, 5) { 0 } else { r.range(1, 5) };
     for i in 0..rows {
         let region = ["us", "eu", "cn", "kr", "tw", "sg", "xx"][(i as usize + r.usize_below(3)) % 7];
         let mut h = [0u8; 16];
